@@ -27,8 +27,10 @@ FrameKinds == {"frame-bad-header-mac", "frame-bad-frame-mac", "frame-truncated-c
 TcpIn   == {"auth-valid", "auth-garbage", "auth-bitflip", "auth-short-close", "close"}
 EncIn   == {"hs-valid", "hs-extra-fields", "hs-garbage", "hs-empty-list", "hs-wrong-version", "hs-zero-id", "hs-no-caps",
             "hs-too-big", "ping", "base-unknown", "sub-code"} \cup DiscKinds \cup FrameKinds
+\* "deaf-requests": the remote asks for more than the connection's buffers hold, stops reading and keeps sending keep-alives;
+\* the node's reply cannot be written, so the write time-out must end the session (its message loop must not wait for ever)
 ReadyIn == {"ping", "pong", "get-peers", "peers-garbage", "hs-again", "base-unknown", "sub-out-of-range",
-            "sub-garbage", "sub-request"} \cup DiscKinds \cup FrameKinds
+            "sub-garbage", "sub-request", "deaf-requests"} \cup DiscKinds \cup FrameKinds
 
 \* discovery datagrams (p2p/discover/udp.go): a stage of its own, every datagram is independent
 UdpIn   == {"ping-valid", "ping-expired", "ping-wrong-version", "ping-bad-hash", "ping-bad-signature", "ping-truncated-rlp",
@@ -49,7 +51,7 @@ Reaction(stage, in) ==
     [] stage = "ready" /\ in = "ping" -> [to |-> "ready", reply |-> "pong"]
     [] stage = "ready" /\ in \in {"pong", "get-peers", "peers-garbage", "hs-again", "base-unknown"} -> [to |-> "ready", reply |-> "none"]   \* other base messages are ignored
     [] stage = "ready" /\ in = "sub-request" -> [to |-> "ready", reply |-> "hashes"]
-    [] stage = "ready" -> [to |-> "closed", reply |-> "none"]         \* disconnects, out-of-range codes, undecodable sub-protocol messages, any frame corruption
+    [] stage = "ready" -> [to |-> "closed", reply |-> "none"]         \* disconnects, out-of-range codes, undecodable sub-protocol messages, any frame corruption, a remote that does not read
 
 VARIABLES stage, alive, nmsg, hist
 vars == <<stage, alive, nmsg, hist>>
